@@ -13,8 +13,12 @@ CONSTANTS
   BitWidth = 8
   AllowEmpty = FALSE
   AlwaysRow = FALSE
+  Plans = {<<2, 2>>}
   SampleDB = 0
   SampleMS = 0
+  SampleSeries = 3
+  SampleMatchers = 3
   OutFile = "sel_cases.json"
 INVARIANTS MechEqDefOnSafe MechSubset PerSeries
+CONSTRAINT PlanOK
 CHECK_DEADLOCK FALSE
